@@ -196,13 +196,16 @@ def shrink_hist(line, budget=60):
 
     # truncate after the first differing op
     l0 = head + " | " + " | ".join(ops)
+    t_start = time.time()
     g = run_go([l0]); m = run_model([l0])
+    if time.time() - t_start > 8 or g[0].startswith(("TIMEOUT", "CRASH")):
+        return line     # a hanging or crashing case: every candidate would cost a time-out; report it as it is
     d = first_diff(g[0].split(" ## ")[0] if " ## " in g[0] and not head.endswith(" 1") else g[0],
                    m[0].split(" ## ")[0] if " ## " in m[0] and not head.endswith(" 1") else m[0])
     if d is not None and d[0] + 1 < len(ops) and disagree(ops[: d[0] + 1]):
         ops = ops[: d[0] + 1]
     i = len(ops) - 2
-    while i >= 0 and budget > 0:
+    while i >= 0 and budget > 0 and time.time() - t_start < 90:
         cand = ops[:i] + ops[i + 1:]
         budget -= 1
         if cand and disagree(cand):
@@ -296,6 +299,9 @@ def correspondence(pid, tier, seed, res, lines_extra=None):
     if pid == "C19" and tier == "thorough":
         op_ms = 400000      # a full trial division of a 64-bit prime takes minutes in the model (boxed big numbers)
     os.environ["VERIF_STALL_S"] = str(op_ms // 1000 + 3)
+    # Groebner computations and full trial divisions legitimately reach the cap; elsewhere three capped cases per
+    # chunk end the chunk (each is reported; the rest would only cost the cap again and again)
+    os.environ["VERIF_MAX_SLOW"] = "1000000" if pid in ("C11", "C12", "C13", "C19") else "3"
     go, mo = run_both(lines, go_env={"VERIF_OP_TIMEOUT_MS": str(op_ms)})
     go, mo = t3_postprocess(pid, lines, go, mo)
     kf = known_findings()
@@ -306,7 +312,7 @@ def correspondence(pid, tier, seed, res, lines_extra=None):
         kinds[kind] = kinds.get(kind, 0) + 1
         if go[i] == mo[i]:
             continue
-        if "fuel-exhausted" in mo[i] or mo[i].startswith("CRASH") or (pid in ("C11", "C12", "C13") and go[i].startswith("TIMEOUT")):
+        if "fuel-exhausted" in mo[i] or mo[i].startswith(("CRASH", "SKIPPED")) or go[i].startswith("SKIPPED") or (pid in ("C11", "C12", "C13") and go[i].startswith("TIMEOUT")):
             inconclusive += 1
             continue
         k = classify(pid, l, go[i], mo[i], kf)
